@@ -5,6 +5,7 @@ import (
 	"sync/atomic"
 
 	"github.com/pion/interceptor"
+	"github.com/pion/rtp"
 )
 
 // ---- C1 -------------------------------------------------------------------------------------------------------
@@ -414,4 +415,86 @@ func (c *c7obj) GoodC7Cond(shared bool, d int) int {
 		c.mu.Unlock()
 	}
 	return d
+}
+
+type c7queue struct {
+	mu    sync.Mutex
+	items []int
+	sink  func(int) bool
+}
+
+// GoodC7Drain drops the lock around every hand-off and re-takes it on every path back to the loop head.
+func (q *c7queue) GoodC7Drain() {
+	q.mu.Lock()
+	for len(q.items) > 0 {
+		it := q.items[0]
+		q.items = q.items[1:]
+		q.mu.Unlock()
+		if it < 0 {
+			q.mu.Lock()
+			continue
+		}
+		q.sink(it)
+		q.mu.Lock()
+	}
+	q.mu.Unlock()
+}
+
+// BadC7Drain forgets to re-take the lock on the skip path: the loop head runs unlocked and the final Unlock is fatal.
+func (q *c7queue) BadC7Drain() {
+	q.mu.Lock()
+	for len(q.items) > 0 {
+		it := q.items[0]
+		q.items = q.items[1:]
+		q.mu.Unlock()
+		if it < 0 {
+			continue
+		}
+		q.sink(it)
+		q.mu.Lock()
+	}
+	q.mu.Unlock()
+}
+
+// BadC7Twice unlocks explicitly on the early path although the unlock is deferred.
+func (c *c7obj) BadC7Twice(d int) int {
+	c.mu.Lock()
+	defer c.mu.Unlock()
+	if c.n >= c.max {
+		c.mu.Unlock()
+		return c.n
+	}
+	c.n += d
+	return c.n
+}
+
+// ---- C8 ---------------------------------------------------------------------------------------------------------------
+
+type c8icpt struct {
+	interceptor.NoOp
+	mu sync.Mutex
+}
+
+// GoodC8Local keeps its temporaries inside the per-packet function; the per-stream counter is updated under a mutex.
+func (c *c8icpt) GoodC8Local(w interceptor.RTPWriter) interceptor.RTPWriter {
+	count := 0
+	return interceptor.RTPWriterFunc(func(h *rtp.Header, p []byte, a interceptor.Attributes) (int, error) {
+		n, err := w.Write(h, p, a)
+		c.mu.Lock()
+		count += n
+		c.mu.Unlock()
+		return n, err
+	})
+}
+
+// BadC8Hoisted declares the temporaries one scope too far out: concurrent writers share them.
+func (c *c8icpt) BadC8Hoisted(w interceptor.RTPWriter) interceptor.RTPWriter {
+	var (
+		n   int
+		err error
+	)
+	return interceptor.RTPWriterFunc(func(h *rtp.Header, p []byte, a interceptor.Attributes) (int, error) {
+		n, err = w.Write(h, p, a)
+		return n, err
+	})
 }
